@@ -450,16 +450,18 @@ pub fn run_c15(ctx: &mut Ctx) {
             let mut ops = gen_sat_history(&mut rng, len);
             if rng.pct(8) {
                 // variable ids spread over several 64-blocks, several variables sharing a residue modulo 64
+                // (half of these: ids that are exact multiples of 64, the last bit of a word)
+                let exact = rng.pct(50);
                 let f = |l: isize| -> isize {
                     let v = l.unsigned_abs() as isize;
-                    let nv = 1 + (v % 3) + 64 * (v / 3);
+                    let nv = if exact { if v % 2 == 0 { 64 * (v / 2 + 1) } else { 64 * (v / 2) + 1 } } else { 1 + (v % 3) + 64 * (v / 3) };
                     if l > 0 { nv } else { -nv }
                 };
                 for op in ops.iter_mut() {
                     match op {
                         SOp::Add(c) => c.iter_mut().for_each(|l| *l = f(*l)),
                         SOp::Solve(a) => a.iter_mut().for_each(|l| *l = f(*l)),
-                        SOp::Reserve(n) => *n = 1 + (*n % 3) + 64 * (*n / 3),
+                        SOp::Reserve(n) => *n = if exact { 64 * (*n / 2 + 1) } else { 1 + (*n % 3) + 64 * (*n / 3) },
                     }
                 }
                 ctx.count("histories/variable-ids-spread-over-64-blocks");
